@@ -95,6 +95,10 @@ def skeAttacks : List String := ["ske-otherrandoms", "ske-otherclientrandom", "s
 
 def cvAttacks : List String := ["cv-replay", "cv-otherdigest", "cv-empty"]
 
+/-- scripted peers (gmtls/export_verif_c08.go): otherwise honest, consistent transcript -/
+def evilAttacks : List String :=
+  ["s-ske-omitted", "s-fin-firstbyte", "s-fin-first11", "s-fin-lastbit", "c-fin-firstbyte", "c-fin-first11", "c-fin-lastbit"]
+
 def setAt (l : List Nat) (i v : Nat) : List Nat := l.set i v
 
 /-- the `idx`-th plaintext handshake message of a direction, by name -/
@@ -132,6 +136,9 @@ def wireOf (attack : String) (params : List Nat) (other : Nat) (cap : Outcome) (
   | "cv-replay" => c2s fun g => { g with cv := g.cv.map fun k => capCv.getD k }
   | "cv-otherdigest" => c2s fun g => { g with cv := g.cv.map fun _ => P.sign ckey (.transcript [4242]) }
   | "cv-empty" => c2s fun g => { g with cv := g.cv.map fun _ => [] }
+  | "s-ske-omitted" => s2c fun x => { x with ske := none }
+  | "s-fin-firstbyte" | "s-fin-first11" | "s-fin-lastbit" => some { finS := fun o => o.map (· ++ [1]) }
+  | "c-fin-firstbyte" | "c-fin-first11" | "c-fin-lastbit" => some { finC := fun o => o.map (· ++ [1]) }
   | "cke-forge" => c2s fun g => { g with cke := g.cke.map fun _ => P.enc 2002 [7777] }
   | "mitm-ch-version" => ch fun h => { h with vers := 0x0303 }
   | "mitm-ch-version-low" => ch fun h => { h with vers := 0x0100 }
@@ -225,7 +232,7 @@ def authOp (args : List String) : String :=
     | some (suite, other), some pol, some (chain, ckey), some params =>
       if isvS != "0" && isvS != "1" then "bad-op" else
       let scfg : Option (Nat × Key × Nat × Key) :=
-        if attack.startsWith "s-" then serverOf attack else some (10, 2001, 11, 2002)
+        if attack.startsWith "s-" && !evilAttacks.contains attack then serverOf attack else some (10, 2001, 11, 2002)
       match scfg with
       | none => "bad-op"
       | some (c0, k0, c1, k1) =>
@@ -236,11 +243,11 @@ def authOp (args : List String) : String :=
           { certs := [c0, c1], encDer := c1, signKey := k0, decKey := k1, clientAuth := pol, clientCAs := [caMain], now := 0,
             suites := gmSuites, random := random, ext := 9, certReq := (3, 100) }
         let known := attack == "honest" || attack.startsWith "s-" || skeAttacks.contains attack || attack == "cke-forge" ||
-          cvAttacks.contains attack ||
+          cvAttacks.contains attack || evilAttacks.contains attack ||
           attack.startsWith "mitm-"
         if !known then "bad-op" else
         let cap := run P (mkClient 1101 [5105]) (mkServer 2102) {}
-        let wire? : Option Wire := if attack == "honest" || attack.startsWith "s-" then some {} else wireOf attack params other cap 1001 ckey
+        let wire? : Option Wire := if attack == "honest" || (attack.startsWith "s-" && !evilAttacks.contains attack) then some {} else wireOf attack params other cap 1001 ckey
         match wire? with
         | none => "bad-op"
         | some w =>
